@@ -31,7 +31,7 @@ from ..model import lz4frame, snappyraw
 ID = "C22"
 LEVEL = "exploration"
 BUDGET = {"quick": 20, "thorough": 240}
-MEMCHECK = {"requests": 200, "stride": 20}    # thorough: valgrind memcheck over a sample of the workload
+MEMCHECK = {"requests": 600, "stride": 10}    # thorough: valgrind memcheck over a sample of the workload
 FLOOR = {"quick": 60, "thorough": 150}
 RULE = ("codec pairs and their options enumerated from the stdlib metadata (base64 charset x padding, "
         "percent ascii_set, punycode validate, gzip/zlib/zstd levels incl. extremes, lz4 prepend_size x "
